@@ -10,6 +10,7 @@ import Spade.Algo.Insert
 import Spade.Algo.LineIter
 import Spade.Algo.Remove
 import Spade.Algo.Constrain
+import Spade.Algo.CircIter
 namespace Spade
 
 def scale1074N : Nat := 2 ^ 1074
@@ -454,6 +455,11 @@ def judgeExtra2 (hNew hOld : HCtx) (op res : Array String) (dump : Option St) : 
         match parseNat site, edges.mapM parseNat with
         | some site, some el => parse fuel ((rest.dropWhile (· ≠ ";")).drop 1) es cs ((site, el) :: fs)
         | _, _ => none
+      | "b" :: site :: rest =>   -- the same cell iterated backwards: kept in `fs` under site + 2·10⁹
+        let edges := rest.takeWhile (· ≠ ";")
+        match parseNat site, edges.mapM parseNat with
+        | some site, some el => parse fuel ((rest.dropWhile (· ≠ ";")).drop 1) es cs ((2000000000 + site, el) :: fs)
+        | _, _ => none
       | _ => none
     match parse (toks.length + 1) toks [] [] [] with
     | none => (hNew, [⟨"INTERNAL", "protocol", "vor: unparsable"⟩])
@@ -463,6 +469,8 @@ def judgeExtra2 (hNew hOld : HCtx) (op res : Array String) (dump : Option St) : 
       let kc := if f32 then 14 else 40
       let nonfinite := fs.filter fun x => x.1 == 1000000000
       let fs := fs.filter fun x => x.1 != 1000000000
+      let bs := (fs.filter fun x => x.1 ≥ 2000000000).map fun x => (x.1 - 2000000000, x.2)
+      let fs := fs.filter fun x => x.1 < 2000000000
       let f1 := chk (es.length == s.nE && (es.map (·.d)).eraseDups.length == es.length && es.all (veStructOK s)) "C18"
         "voronoi-edge-structure-wrong" (fun _ => s!"edges={es.length} nE={s.nE}")
       let f2 := chk (es.all fun v => veDirOK s v kd) "C18" "voronoi-direction-vector-wrong" (fun _ => "")
@@ -481,7 +489,22 @@ def judgeExtra2 (hNew hOld : HCtx) (op res : Array String) (dump : Option St) : 
           el.length == countLt s.nE (fun e => s.org e == site) &&
           (List.zip el (el.drop 1)).all fun p => p.2 == s.ccw p.1 || p.2 == s.cw p.1) "C18"
         "voronoi-face-edges-wrong" (fun _ => "")
-      (hNew, f1 ++ f2 ++ f3 ++ f4 ++ f5)
+      -- R3: `adjacent_edges` = the translated `CircularIterator` drained over `out_edges` on the dumped links
+      let badf := fs.filter fun (site, el) => el != s.outEdgesFront site
+      let f6 := chk badf.isEmpty "C18:model" "voronoi-face-iterator-model-differs"
+        (fun _ => match badf.head? with
+          | some (site, el) => s!"site={site} model={s.outEdgesFront site} impl={el}"
+          | none => "")
+      -- backwards (`adjacent_edges().rev()`): the reverse of the forward answer (C18: "circulate once
+      -- around its site", in either direction), and the translated iterator drained from the back
+      let f7 := chk (bs.length == fs.length && (List.zip fs bs).all fun (f, b) => f.1 == b.1 && b.2 == f.2.reverse) "C18"
+        "voronoi-face-edges-reversed-wrong" (fun _ => "")
+      let badb := bs.filter fun (site, el) => el != s.outEdgesBack site
+      let f8 := chk badb.isEmpty "C18:model" "voronoi-face-back-iterator-model-differs"
+        (fun _ => match badb.head? with
+          | some (site, el) => s!"site={site} model={s.outEdgesBack site} impl={el}"
+          | none => "")
+      (hNew, f1 ++ f2 ++ f3 ++ f4 ++ f5 ++ f6 ++ f7 ++ f8)
   | "baryi" | "nnwi" =>
     -- `interpolate` of a fixed linear function must be the weighted sum over `get_weights` for the
     -- same position (both computed by the implementation; the weights themselves are judged by the
